@@ -43,7 +43,60 @@ def _decider():
   return Decider(extra=extra)
 
 
+def quantized_root_wrapper(ctx):
+  """Q6: the quantized inverse-root wrapper of Distributed Shampoo dequantizes the statistic from ITS three parts,
+  re-quantizes the new root once, and returns the three parts of that ONE quantized value (payload, extracted diagonal,
+  bucket sizes) in the documented order - a part taken from the input statistic, or parts of two different values, still
+  has the right shape and dtype."""
+  m = ctx.model
+  F_ = 'distributed_shampoo'
+  fi = m.func(F_, F_ + '._quantized_matrix_inverse_pth_root_vmap.matrix_inverse_pth_root_wrapper')
+  ctx.analysed(fi)
+  ev = evaluator(m, opaque={'small_mi_pth_root', 'new_mi_pth_root', 'from_float_value', 'to_float'})
+  r = ev.run(fi)
+  ctx.evaluations += 1
+  P = lambda n: sym('param', fi.short, n)
+  ok_shape = r.op == 'tuple' and len(r.args) == 4
+  ctx.ob('C11.Q5', fi.short, 'wrapper returns (payload, diagonal, bucket sizes, metrics)', ok_shape,
+         f'got `{show(r, maxdepth=3)[:160]}`', ctx.loc(fi), sample='(qp.quantized, qp.diagonal, qp.bucket_size, metrics)')
+  if not ok_shape:
+    return
+  parts = r.args[:3]
+  bases = [x.args[0] if x.op == 'attr' else None for x in parts]
+  names = [x.args[1] if x.op == 'attr' else None for x in parts]
+  one = bases[0] is not None and all(b is bases[0] for b in bases) and fn_name(bases[0]) == 'from_float_value'
+  ctx.ob('C11.Q5', fi.short, 'the three returned parts belong to one re-quantized value, in order', one and names == ['quantized', 'diagonal', 'bucket_size'],
+         f'the wrapper must return qp.quantized, qp.diagonal, qp.bucket_size of the single QuantizedValue built from the new root; got '
+         f'`{[show(x, maxdepth=2)[:50] for x in parts]}`', ctx.loc(fi), sample='parts of one from_float_value(root, dtype, True)')
+  if one:
+    c = [c for c in ev.calls if c.callee.endswith('.from_float_value') and c.result is bases[0]]
+    a = c[0].args if c else {}
+    fv = a.get('fvalue', NONE)
+    okq = any(fn_name(x) in ('small_mi_pth_root', 'new_mi_pth_root') for x in walk(fv)) and is_const(a.get('extract_diagonal', NONE), True) and \
+        path_str(a.get('quantized_dtype', NONE)) == 'qx.dtype'
+    ctx.ob('C11.Q5', fi.short, 'the new root is re-quantized in the storage dtype with its diagonal extracted', okq,
+           f'from_float_value must be given the computed root, qx.dtype and extract_diagonal=True; got `{show(fv, maxdepth=3)[:80]}`, '
+           f'`{show(a.get("quantized_dtype", NONE), maxdepth=2)}`, `{show(a.get("extract_diagonal", NONE))}`', ctx.loc(fi),
+           sample='from_float_value(root, qx.dtype, True)')
+  qv = [c for c in ev.calls if c.via == 'construct' and c.callee.endswith('.QuantizedValue') and c.caller.startswith(fi.fq.rsplit('.', 1)[0])]
+  ctx.need('C11.Q5', len(qv), 1, 'QuantizedValue constructions in the quantized root wrapper')
+  mine = [c for c in qv if any(c.args.get(k) is P(n) for k, n in (('quantized', 'qx'), ('diagonal', 'qd'), ('bucket_size', 'qb'))) or
+          any(v_ is P('qx') or v_ is P('qd') or v_ is P('qb') for v_ in c.args.values())]
+  ctx.need('C11.Q5', len(mine), 1, 'dequantization of the statistic in the quantized root wrapper')
+  first = mine[0].args
+  okd = first.get('quantized') is P('qx') and first.get('diagonal') is P('qd') and first.get('bucket_size') is P('qb') and is_const(first.get('extract_diagonal', NONE), True)
+  ctx.ob('C11.Q5', fi.short, 'the statistic is dequantized from its own three parts', okd,
+         f'QuantizedValue(qx, qd, qb, qx.dtype, True, shape) expected; got quantized=`{show(first.get("quantized", NONE), maxdepth=2)}`, '
+         f'diagonal=`{show(first.get("diagonal", NONE), maxdepth=2)}`, bucket_size=`{show(first.get("bucket_size", NONE), maxdepth=2)}`', ctx.loc(fi),
+         sample='QuantizedValue(qx, qd, qb, ...).to_float()')
+
+
 def run(ctx):
+  quantized_root_wrapper(ctx)
+  # "state that is carried but not updated does not drift": what a rejected / non-refresh step keeps is every part of the
+  # old quantized value under one predicate (the gate rules of C03, quantized mode included)
+  from . import C03
+  C03.run_gate(ctx)
   m = ctx.model
   fq = m.func(QM, 'QuantizedValue.quantize')
   ft = m.func(QM, 'QuantizedValue.to_float')
